@@ -51,7 +51,10 @@ def mkEnt (s : S) (j : Json) : R (Ent × JEnt) := do
   let refs := (getOpt j "refs").getD (Json.mkObj [])
   let deleted := getBoolD j "deleted" false
   let body := (Json.mkObj [("props", props), ("refs", refs)]).compress
-  return ({ rid := ridOf s uri, deleted := deleted, refs := refPairs s refs, body := body },
+  let arrs : List Nat := match refs with
+    | .obj kvs => kvs.toList.filterMap fun (k, v) => match v with | .arr _ => some (ridOf s k) | _ => none
+    | _ => []
+  return ({ rid := ridOf s uri, deleted := deleted, refs := refPairs s refs, body := body, arrs := arrs },
           { uri := uri, props := props, refs := refs, deleted := deleted })
 
 def render (je : JEnt) : Json :=
